@@ -297,24 +297,34 @@ func streamsExtractor(args []string) []int {
 	return keys
 }
 
-// sortExtractor extracts the source key and optional STORE destination key from SORT.
+// sortExtractor extracts the source key and the STORE destination key from SORT, at the
+// positions Redis's own sortGetKeys names (what a cluster node checks the command by):
+// the arguments of LIMIT (two), BY and GET (one each) are stepped over, and when STORE is
+// given more than once the LAST destination is the key (the earlier ones are not written).
 // It only accepts BY/GET forms that do not introduce additional keys, namely # or nosort.
 // Otherwise it returns nil to avoid incorrect key projection.
 func sortExtractor(args []string) []int {
 	if len(args) == 0 {
 		return nil
 	}
-	keys := []int{0}
-	hasStore := false
+	dst := -1
 	for i := 1; i < len(args); i++ {
 		switch {
+		case strings.EqualFold(args[i], "limit"):
+			// offset and count are no option words, whatever they spell
+			i += 2
 		case strings.EqualFold(args[i], "store"):
 			if i+1 >= len(args) {
 				return nil
 			}
-			// The STORE destination is also a key accessed by the command.
-			keys = append(keys, i+1)
-			hasStore = true
+			if isSortOptionWord(args[i+1]) {
+				// Redis's scan does not step over the destination: one that spells an
+				// option word is read as that option. Let the target name the keys.
+				return nil
+			}
+			// The STORE destination is also a key accessed by the command; a later
+			// STORE overrides an earlier one.
+			dst = i + 1
 			i++
 		case strings.EqualFold(args[i], "by"):
 			if i+1 >= len(args) {
@@ -337,33 +347,40 @@ func sortExtractor(args []string) []int {
 	}
 	// Only return keys when STORE is present, so callers can decide whether
 	// partial projection is allowed.
-	if !hasStore {
+	if dst < 0 {
 		return nil
 	}
-	return keys
+	return []int{0, dst}
+}
+
+func isSortOptionWord(arg string) bool {
+	return strings.EqualFold(arg, "limit") || strings.EqualFold(arg, "store") ||
+		strings.EqualFold(arg, "by") || strings.EqualFold(arg, "get")
 }
 
 // geoRadiusStoreExtractor extracts the source key and STORE/STOREDIST destination key
-// from GEORADIUS/GEORADIUSBYMEMBER.
+// from GEORADIUS/GEORADIUSBYMEMBER, at the positions Redis's own georadiusGetKeys names:
+// option words are looked for behind the fixed arguments only (key lon lat radius unit /
+// key member radius unit: from argv[5] on - a member that spells an option word is none),
+// the argument of a store option is consumed, and when both or several store options are
+// given the LAST one names the destination.
 // These commands only access multiple keys when a store target is present,
 // so it returns nil if no STORE-related argument is found.
 func geoRadiusStoreExtractor(args []string) []int {
 	if len(args) == 0 {
 		return nil
 	}
-	keys := []int{0}
-	hasStore := false
-	for i := 1; i < len(args)-1; i++ {
-		if strings.EqualFold(args[i], "store") || strings.EqualFold(args[i], "storedist") {
-			keys = append(keys, i+1)
-			hasStore = true
-			break
+	dst := -1
+	for i := 4; i < len(args); i++ {
+		if (strings.EqualFold(args[i], "store") || strings.EqualFold(args[i], "storedist")) && i+1 < len(args) {
+			dst = i + 1
+			i++
 		}
 	}
-	if !hasStore {
+	if dst < 0 {
 		return nil
 	}
-	return keys
+	return []int{0, dst}
 }
 
 // CommandKeys returns the list of key strings accessed by the command.
